@@ -900,6 +900,18 @@ func longLived(all []manyT, out *vh.Out) {
 				buf.WriteByte(' ')
 				seq = append(seq, m)
 			}
+			if round == 2 {
+				// a long stretch of the smallest value of each kind in the middle (1500 empty lists, ...)
+				for _, m := range all {
+					if len(m.rp.B) <= 2 {
+						for k := 0; k < 1500; k++ {
+							buf.Write(toBytes(m.rp.B))
+							buf.WriteByte(' ')
+							seq = append(seq, m)
+						}
+					}
+				}
+			}
 		}
 		buf.WriteString("Z\r\n")
 		br := bufio.NewReader(&buf)
